@@ -31,7 +31,16 @@ macro_rules! family {
                 if p.len() < 12 { p.push(v); } else { let i = r.idx(12); p[i] = v; }
             }
             fn ang(r: &mut Rng) -> $S {
-                (match r.below(5) { 0 => r.range(-0.01, 0.01), 1 => core::f64::consts::PI * r.int_in(-2, 2) as f64 * 0.5 + r.range(-1e-3, 1e-3), _ => r.range(-6.5, 6.5) }) as $S
+                (match r.below(6) {
+                    0 => r.range(-0.01, 0.01),
+                    1 => core::f64::consts::PI * r.int_in(-2, 2) as f64 * 0.5 + r.range(-1e-3, 1e-3),
+                    // tiny rotations of every magnitude down to the smallest subnormal angle
+                    2 => { let kmax = (<$S>::MANTISSA_DIGITS as i32 - <$S>::MIN_EXP) as f64 + 2.0; (-r.range(8.0, kmax)).exp2() * if r.bool() { 1.0 } else { -1.0 } }
+                    _ => r.range(-6.5, 6.5),
+                }) as $S
+            }
+            fn sgn(r: &mut Rng) -> $S {
+                if r.below(3) == 0 { -1.0 } else { 1.0 }
             }
             fn vec3(r: &mut Rng) -> $V3 {
                 // finite, non-degenerate: includes tiny vectors whose squared length is still a normal number
@@ -75,7 +84,7 @@ macro_rules! family {
                     23 => { let q = pick!(p.uq).slerp(pick!(p.uq), s01); keep(&mut p.uq, q, r); out!("Quat::slerp", q); }
                     24 => { let q = pick!(p.uq).rotate_towards(pick!(p.uq), r.range(0.0, 3.5) as $S); keep(&mut p.uq, q, r); out!("Quat::rotate_towards", q); }
                     25 => { let (ax, an) = pick!(p.uq).to_axis_angle(); let q = <$Q>::from_axis_angle(ax, an); keep(&mut p.uq, q, r); keep(&mut p.uv3, ax, r); out!("to_axis_angle->from_axis_angle", q); }
-                    26 => { let sa = pick!(p.uq).to_scaled_axis(); let q = <$Q>::from_scaled_axis(sa); keep(&mut p.uq, q, r); out!("to_scaled_axis->from_scaled_axis", q); }
+                    26 => { let sa = pick!(p.uq).to_scaled_axis(); let q = <$Q>::from_scaled_axis(sa); keep(&mut p.uq, q, r); out!("to_scaled_axis->from_scaled_axis", q); let v = vec3(r) * (ang(r) as $S).abs().min(1.0); let q2 = <$Q>::from_scaled_axis(v); keep(&mut p.uq, q2, r); out!("from_scaled_axis", q2); }
                     27 => { let e = pick!(p.uq).to_euler(EulerRot::YXZ); out!("Quat::to_euler", e); let a = pick!(p.uq).angle_between(pick!(p.uq)); out!("Quat::angle_between", a); }
                     28 => { let m = <$M3>::from_quat(pick!(p.uq)); keep(&mut p.r3, m, r); out!("Mat3::from_quat", m); }
                     29 => { let m = <$M3>::from_axis_angle(pick!(p.uv3), ang(r)); keep(&mut p.r3, m, r); out!("Mat3::from_axis_angle", m); }
@@ -83,7 +92,7 @@ macro_rules! family {
                     31 => { let m = pick!(p.r3) * pick!(p.r3); keep(&mut p.r3, m, r); out!("Mat3*Mat3", m); let t = pick!(p.r3).transpose(); keep(&mut p.r3, t, r); let i = pick!(p.r3).inverse(); out!("Mat3::inverse", i); }
                     32 => { let e = pick!(p.r3).to_euler(EulerRot::ZYX); let m = <$M3>::from_euler(EulerRot::ZYX, e.0, e.1, e.2); keep(&mut p.r3, m, r); out!("Mat3::to_euler->from_euler", m); }
                     33 => { let m = <$M4>::from_rotation_translation(pick!(p.uq), vec3(r)); keep(&mut p.am4, m, r); keep(&mut p.trs4, m, r); out!("Mat4::from_rotation_translation", m); }
-                    34 => { let sc = <$V3>::new(r.logmag(-3.0, 3.0) as $S, r.logmag(-3.0, 3.0) as $S, r.logmag(-3.0, 3.0) as $S); let m = <$M4>::from_scale_rotation_translation(sc, pick!(p.uq), vec3(r) * 1e-3); keep(&mut p.am4, m, r); keep(&mut p.trs4, m, r); out!("Mat4::from_scale_rotation_translation", m); let a = <$A3>::from_scale_rotation_translation(sc, pick!(p.uq), pick!(p.v3)); keep(&mut p.a3, a, r); out!("Affine3::from_scale_rotation_translation", a); }
+                    34 => { let sc = <$V3>::new(r.logmag(-3.0, 3.0) as $S * sgn(r), r.logmag(-3.0, 3.0) as $S * sgn(r), r.logmag(-3.0, 3.0) as $S * sgn(r)); let m = <$M4>::from_scale_rotation_translation(sc, pick!(p.uq), vec3(r) * 1e-3); keep(&mut p.am4, m, r); keep(&mut p.trs4, m, r); out!("Mat4::from_scale_rotation_translation", m); let a = <$A3>::from_scale_rotation_translation(sc, pick!(p.uq), pick!(p.v3)); keep(&mut p.a3, a, r); out!("Affine3::from_scale_rotation_translation", a); }
                     35 => { let (d, u) = (pick!(p.uv3), pick!(p.uv3)); if d.cross(u).length() > 1e-2 { let m = if r.bool() { <$M4>::look_to_rh(pick!(p.v3), d, u) } else { <$M4>::look_to_lh(pick!(p.v3), d, u) }; keep(&mut p.am4, m, r); keep(&mut p.trs4, m, r); out!("Mat4::look_to", m); let a = <$A3>::look_to_rh(pick!(p.v3), d, u); keep(&mut p.a3, a, r); out!("Affine3::look_to_rh", a); } }
                     36 => { let (e, c0) = (pick!(p.v3), pick!(p.v3)); let u = pick!(p.uv3); let d = c0 - e; if d.length() > 1e-3 * (e.length() + c0.length()) && d.normalize().cross(u).length() > 1e-2 { let m = <$M4>::look_at_rh(e, c0, u); keep(&mut p.am4, m, r); out!("Mat4::look_at_rh", m); let q = <$Q>::look_at_lh(e, c0, u); keep(&mut p.uq, q, r); out!("Quat::look_at_lh", q); } }
                     37 => { let m = pick!(p.am4); let v = m.transform_point3(pick!(p.v3)); out!("Mat4::transform_point3", v); let w = m.transform_vector3(pick!(p.v3)); out!("Mat4::transform_vector3", w); }
@@ -93,7 +102,7 @@ macro_rules! family {
                     41 => { let a = pick!(p.a3); let m = <$M4>::from(a); keep(&mut p.am4, m, r); let q = <$Q>::from_affine3(&<$A3>::from_quat(pick!(p.uq))); keep(&mut p.uq, q, r); out!("Quat::from_affine3", q); let i = a.inverse(); if i.is_finite() { out!("Affine3::inverse", i); } }
                     42 => { let a = pick!(p.a3); if a.matrix3.determinant() != 0.0 && a.is_finite() { let (s, q, t) = a.to_scale_rotation_translation(); if s.is_finite() && s.cmpne(<$V3>::ZERO).all() { keep(&mut p.uq, q, r); out!("Affine3::to_srt", (s, q, t)); } } }
                     43 => { let v = <$V2>::from_angle(ang(r)); keep(&mut p.uv2, v, r); let w = pick!(p.uv2).rotate(pick!(p.uv2)); keep(&mut p.uv2, w, r); out!("Vec2::rotate", w); let n = <$V2>::new(r.normal() as $S, (r.normal() + 0.1) as $S).normalize(); keep(&mut p.uv2, n, r); }
-                    44 => { let a = <$A2>::from_scale_angle_translation(<$V2>::new(r.logmag(-3.0, 3.0) as $S, r.logmag(-3.0, 3.0) as $S), ang(r), <$V2>::new(r.normal() as $S, r.normal() as $S)); keep(&mut p.a2, a, r); let (s, an, t) = pick!(p.a2).to_scale_angle_translation(); out!("Affine2::to_sat", (s, an, t)); let i = pick!(p.a2).inverse(); out!("Affine2::inverse", i); }
+                    44 => { let a = <$A2>::from_scale_angle_translation(<$V2>::new(r.logmag(-3.0, 3.0) as $S * sgn(r), r.logmag(-3.0, 3.0) as $S * sgn(r)), ang(r), <$V2>::new(r.normal() as $S, r.normal() as $S)); keep(&mut p.a2, a, r); let (s, an, t) = pick!(p.a2).to_scale_angle_translation(); out!("Affine2::to_sat", (s, an, t)); let i = pick!(p.a2).inverse(); out!("Affine2::inverse", i); }
                     _ => { let q = <$Q>::from_mat4(&<$M4>::from_quat(pick!(p.uq))); keep(&mut p.uq, q, r); out!("Quat::from_mat4", q); let m = <$M2>::from_scale_angle(<$V2>::new(2.0, 3.0), ang(r)); out!("Mat2::from_scale_angle", m.inverse()); let pm = <$M4>::perspective_rh(1.0, 1.5, 0.1, 100.0); out!("project_point3", pm.project_point3(pick!(p.uv3))); }
                 }
             }
